@@ -318,8 +318,21 @@ def c20(pid, tier, replay):
     maxlen, nrand = (3, 2000) if tier == "quick" else (4, 20000)
     t = scr.fresh("disc") + ".ndjson"
     run_cmd([h, "discovery", tpath, str(maxlen), str(nrand), "12", str(vlib.seed()), t])
+    # first contact with the capability sets in other orders, each in a fresh process (a classification that
+    # remembers what it met first is stable within one process): their lines are judged together by Final
+    cold = scr.fresh("disc-cold") + ".ndjson"
+    with open(cold, "w") as o:
+        for k in range(1, 7):
+            part = scr.fresh("disc-cold-part") + ".ndjson"
+            r = subprocess.run([h, "discovery", tpath, "1", "40", "6", str(vlib.seed() * 10 + k), part], stdout=subprocess.PIPE,
+                               stderr=subprocess.PIPE, text=True, timeout=600, env=dict(os.environ, VERIFH_PERM=str(vlib.seed() * 100 + k)))
+            if r.returncode != 0:
+                raise Infra("verifh discovery (cold run) failed: " + r.stderr[-2000:])
+            with open(part) as f:
+                o.write(f.read())
+            os.remove(part)
     # validate in chunks on several cores
-    chunks = split_ndjson(scr, t, 8 if tier == "quick" else 14)
+    chunks = split_ndjson(scr, t, 8 if tier == "quick" else 14) + [cold]
     for tf, r in zip(chunks, vlib.validate_traces_parallel(scr, "DiscoveryTrace", chunks, xmx="3g")):
         out.add(tf, r, sample_filter=lambda d: len(d.get("hs", [])) >= 3)
     if not replay:
